@@ -31,7 +31,7 @@ def spec(ev: Evaluator, src: str, env: dict, mod: Module | None = None):
     full = {'__parent__': None}
     full.update(MATH_ENV); full.update(env)
     m = mod or next(iter(ev.prog.modules.values()))
-    return ev.ev(e, full, m, 0)
+    return ev.fresh().ev(e, full, m, 0)
 
 
 def call(ev: Evaluator, f: Func, args=(), kw=None, self_val=None):
